@@ -96,6 +96,11 @@ func (u *SPDX23) Unserialize(r io.Reader, _ *native.UnserializeOptions, _ interf
 		if r == nil {
 			continue
 		}
+		// TODO(degradation): relationships to NONE / NOASSERTION name no element
+		// and cannot be expressed as an edge between nodes.
+		if r.RefA.ElementRefID == "" || r.RefB.ElementRefID == "" {
+			continue
+		}
 		// The SPDX go library surfaces the JSON top-level elements as relationships:
 		if r.RefA.ElementRefID == "DOCUMENT" && strings.EqualFold(r.Relationship, "DESCRIBES") {
 			bom.NodeList.RootElements = append(bom.NodeList.RootElements, string(r.RefB.ElementRefID))
